@@ -28,7 +28,7 @@ LineVariants ==
                                        <<"oos", "absent">>, <<"oos", "open">>}}
 Three == {"absent", "in", "oos"}
 GENS  == Three
-SGENS == IF TIER = "quick" THEN {"absent", "small", "large"} ELSE {"absent", "oos", "small", "equal", "large"}
+SGENS == IF TIER = "quick" THEN {"absent", "small", "equal", "large"} ELSE {"absent", "oos", "small", "equal", "large"}
 LD2S  == IF TIER = "quick" THEN {"in"} ELSE Three
 SHS   == IF TIER = "quick" THEN {"absent", "in"} ELSE Three
 SWBS  == IF TIER = "quick" THEN {"closed", "open"} ELSE {"absent", "closed", "open"}
